@@ -176,6 +176,7 @@ type exec struct {
 	bounds  map[string]int64
 	notes   map[string]string
 	clock   value
+	inInit  bool
 	builders map[*value]*[]value
 	pcSet   map[string]bool
 	sampleModel map[string]string
